@@ -1,6 +1,6 @@
 (* Reader side of C01, part 2: Reader.DataReader's window, and the two random-access readers
    (read-only blockstore: key listing + Get of every key; readable storage: Get of every CID)
-   return exactly the roots and the (CID, bytes) sequence of a constructed archive. *)
+   return exactly the ro and the (CID, bytes) sequence of a constructed archive. *)
 From GoCar Require Import Bytes Varint Cid Header Frame V2Header Scan Index Store ReadOnly.
 From GoCarProofs Require Import BytesFacts VarintFacts CidFacts HeaderFacts ScanFacts StoreInv
   ReadOnlyFacts ReadOnlyRefine ReadOnlyIndex ReadOnlyRoundTrip ReadOnlyOpen ReadOnlyMain.
@@ -21,30 +21,30 @@ Section Readers2.
   Variable hdrdec : bytes -> option (list bytes * N).
 
   (* v2 Reader: NewReader + DataReader + Roots *)
-  Theorem data_reader_window o ct roots bs npad file :
-    file_ok hdrdec o ct roots bs npad file ->
+  Theorem data_reader_window o ct ro bs npad file :
+    file_ok hdrdec o ct ro bs npad file ->
     exists r, new_reader hdrdec (q_maxh o) file = Ok r /\
-              data_window r = payload_np roots bs npad /\
-              reader_roots hdrdec (q_maxh o) r = Ok roots.
+              data_window r = payload_np ro bs npad /\
+              reader_roots hdrdec (q_maxh o) r = Ok (hdr_roots ro).
   Proof.
     intros Hfo. pose proof (fo_arch _ _ _ _ _ _ _ Hfo) as Ha.
     destruct ct as [|chi clo dpad ipad emb].
     - pose proof (fo_file _ _ _ _ _ _ _ Hfo) as Hf. cbn [car_file] in Hf. inversion Hf; subst file.
-      unfold new_reader. rewrite (payload_read_header hdrdec o roots bs npad Ha). cbn [N.eqb Pos.eqb].
+      unfold new_reader. rewrite (payload_read_header hdrdec o ro bs npad Ha). cbn [N.eqb Pos.eqb].
       eexists. split; [reflexivity|]. split; [reflexivity|].
       unfold reader_roots, data_window. cbn [rd_ver rd_file N.eqb Pos.eqb].
-      rewrite (payload_read_header hdrdec o roots bs npad Ha). reflexivity.
-    - destruct (embedded_or_flat hdrdec o roots bs npad chi clo dpad ipad emb file Hfo) as (h & i & Hr & Hw & _).
+      rewrite (payload_read_header hdrdec o ro bs npad Ha). reflexivity.
+    - destruct (embedded_or_flat hdrdec o ro bs npad chi clo dpad ipad emb file Hfo) as (h & i & Hr & Hw & _).
       exists (mkrd 2 h file). split; [exact Hr|]. split; [exact Hw|].
-      unfold reader_roots. rewrite Hw, (payload_read_header hdrdec o roots bs npad Ha). reflexivity.
+      unfold reader_roots. rewrite Hw, (payload_read_header hdrdec o ro bs npad Ha). reflexivity.
   Qed.
 
   (* the key under which a section is listed and fetched *)
   Definition key_kp (whole : bool) (c : bytes) (p : cidp) : bytes * cidp :=
     if whole then (c, p) else (raw_cid p, mkcid 1 85 (c_mhcode p) (c_digest p)).
 
-  Lemma own_key_carries o roots bs npad whole c d :
-    arch_ok hdrdec o roots bs npad -> In (c, d) bs ->
+  Lemma own_key_carries o ro bs npad whole c d :
+    arch_ok hdrdec o ro bs npad -> In (c, d) bs ->
     exists p, cid_parse c = Some p /\ cid_parse (fst (key_kp whole c p)) = Some (snd (key_kp whole c p)) /\
               fst (key_kp whole c p) = key_of whole c p /\
               carries whole (fst (key_kp whole c p)) (snd (key_kp whole c p)) (c, d) = true /\
@@ -62,13 +62,13 @@ Section Readers2.
   Qed.
 
   (* get_spec pins the bytes down on consistent archives *)
-  Lemma get_spec_own o roots bs npad c d r :
-    arch_ok hdrdec o roots bs npad -> In (c, d) bs -> consistent bs -> id_consistent bs ->
+  Lemma get_spec_own o ro bs npad c d r :
+    arch_ok hdrdec o ro bs npad -> In (c, d) bs -> consistent bs -> id_consistent bs ->
     forall p, cid_parse c = Some p ->
     get_spec o (fst (key_kp (q_whole o) c p)) (snd (key_kp (q_whole o) c p)) bs r -> r = OBytes d.
   Proof.
     intros Ha Hin Hcons Hid p Hcp Hspec.
-    destruct (own_key_carries o roots bs npad (q_whole o) c d Ha Hin) as (p' & Hcp' & Hkp & _ & Hcar & Hident & Hdig).
+    destruct (own_key_carries o ro bs npad (q_whole o) c d Ha Hin) as (p' & Hcp' & Hkp & _ & Hcar & Hident & Hdig).
     rewrite Hcp in Hcp'. inversion Hcp'; subst p'.
     unfold get_spec, shortcut in Hspec. rewrite Hident in Hspec.
     destruct (negb (q_storeid o) && is_identity p) eqn:Es.
@@ -84,47 +84,47 @@ Section Readers2.
   Qed.
 
   (* read-only blockstore: Roots, the key listing, and Get of every listed key *)
-  Theorem ro_reads_back o ct roots bs npad file sup si :
-    file_ok hdrdec o ct roots bs npad file -> supplied_ok hdrdec sup si roots bs npad ->
+  Theorem ro_reads_back o ct ro bs npad file sup si :
+    file_ok hdrdec o ct ro bs npad file -> supplied_ok hdrdec sup si ro bs npad ->
     (q_storeid o = true -> index_wid o ct sup = true) -> consistent bs -> id_consistent bs ->
     exists s, ro_open hdrdec o file si = Ok s /\
-      ro_roots hdrdec s = OKeys roots /\
+      ro_roots hdrdec s = OKeys (hdr_roots ro) /\
       ro_keys hdrdec s = KKeys (ref_keys (q_whole o) bs) None /\
       forall c d p, In (c, d) bs -> cid_parse c = Some p -> ro_get s (key_of (q_whole o) c p) = OBytes d.
   Proof.
     intros Hfo Hsup Hwid Hcons Hid.
-    destruct (ro_refines_scan hdrdec o ct roots bs npad file sup si Hfo Hsup) as (s & Hs & _ & Hk & Hr & Hq).
+    destruct (ro_refines_scan hdrdec o ct ro bs npad file sup si Hfo Hsup) as (s & Hs & _ & Hk & Hr & Hq).
     pose proof (fo_arch _ _ _ _ _ _ _ Hfo) as Ha.
     exists s. repeat split; try assumption.
     intros c d p Hin Hcp.
-    destruct (own_key_carries o roots bs npad (q_whole o) c d Ha Hin) as (p' & Hcp' & Hkp & Hkey & _).
+    destruct (own_key_carries o ro bs npad (q_whole o) c d Ha Hin) as (p' & Hcp' & Hkp & Hkey & _).
     rewrite Hcp in Hcp'. inversion Hcp'; subst p'. rewrite <- Hkey.
     destruct (Hq _ _ Hkp) as [_ Hg].
     assert (Hguard : id_guard o (index_wid o ct sup) (snd (key_kp (q_whole o) c p)) = true).
     { unfold id_guard. destruct (q_storeid o) eqn:Est; [rewrite (Hwid eq_refl); apply orb_true_r|reflexivity]. }
     destruct (Hg Hguard) as [_ Hget].
-    apply (get_spec_own o roots bs npad c d _ Ha Hin Hcons Hid p Hcp Hget).
+    apply (get_spec_own o ro bs npad c d _ Ha Hin Hcons Hid p Hcp Hget).
   Qed.
 
   (* readable storage: Roots and Get of every section's CID *)
-  Theorem sto_reads_back o ct roots bs npad file :
-    file_ok hdrdec o ct roots bs npad file ->
+  Theorem sto_reads_back o ct ro bs npad file :
+    file_ok hdrdec o ct ro bs npad file ->
     (q_storeid o = true -> index_wid o ct None = true) -> consistent bs -> id_consistent bs ->
     exists s, sto_open hdrdec o file = Ok s /\
-      sto_roots s = OKeys roots /\
+      sto_roots s = OKeys (hdr_roots ro) /\
       forall c d p, In (c, d) bs -> cid_parse c = Some p -> sto_get s (key_of (q_whole o) c p) = OBytes d.
   Proof.
     intros Hfo Hwid Hcons Hid.
-    destruct (sto_refines_scan hdrdec o ct roots bs npad file Hfo) as (s & Hs & _ & Hr & Hq).
+    destruct (sto_refines_scan hdrdec o ct ro bs npad file Hfo) as (s & Hs & _ & Hr & Hq).
     pose proof (fo_arch _ _ _ _ _ _ _ Hfo) as Ha.
     exists s. repeat split; try assumption.
     intros c d p Hin Hcp.
-    destruct (own_key_carries o roots bs npad (q_whole o) c d Ha Hin) as (p' & Hcp' & Hkp & Hkey & _).
+    destruct (own_key_carries o ro bs npad (q_whole o) c d Ha Hin) as (p' & Hcp' & Hkp & Hkey & _).
     rewrite Hcp in Hcp'. inversion Hcp'; subst p'. rewrite <- Hkey.
     assert (Hguard : id_guard o (index_wid o ct None) (snd (key_kp (q_whole o) c p)) = true).
     { unfold id_guard. destruct (q_storeid o) eqn:Est; [rewrite (Hwid eq_refl); apply orb_true_r|reflexivity]. }
     destruct (Hq _ _ Hkp Hguard) as [_ Hget].
-    apply (get_spec_own o roots bs npad c d _ Ha Hin Hcons Hid p Hcp Hget).
+    apply (get_spec_own o ro bs npad c d _ Ha Hin Hcons Hid p Hcp Hget).
   Qed.
 End Readers2.
 
@@ -136,25 +136,25 @@ Definition v2_limits (ct : container) (maxh : N) : Prop :=
   end.
 
 (* v2 BlockReader (hash-verifying unless trusted) over any container *)
-Theorem block_reader_reads_back hok o ct roots bs npad file :
-  archive_ok hok dec_header_canon o roots bs -> (npad = 0 \/ o_zeof o = true) ->
-  car_file ct roots bs npad = Some file -> v2_limits ct (o_maxh o) -> blen file < two63 ->
-  br_read_all hok dec_header_canon o file = Ok (ct_version ct, roots, mkscan bs EEof).
+Theorem block_reader_reads_back hok o ct ro bs npad file :
+  archive_ok_o hok dec_header_canon o ro bs -> (npad = 0 \/ o_zeof o = true) ->
+  car_file ct ro bs npad = Some file -> v2_limits ct (o_maxh o) -> blen file < two63 ->
+  br_read_all hok dec_header_canon o file = Ok (ct_version ct, hdr_roots ro, mkscan bs EEof).
 Proof.
   intros Ha Hz Hf Hv Hl. destruct ct as [|chi clo dpad ipad emb].
   - cbn [car_file] in Hf. inversion Hf; subst file. apply br_read_all_v1_np; assumption.
-  - destruct (car_file_v2 roots bs npad chi clo dpad ipad emb file Hf) as (ib & -> & _).
+  - destruct (car_file_v2 ro bs npad chi clo dpad ipad emb file Hf) as (ib & -> & _).
     destruct Hv as (Hchi & Hclo & Hmh). apply br_read_all_v2; try assumption. reflexivity.
 Qed.
 
-Theorem root_reader_reads_back hok roots bs :
-  roots_ok roots -> blen (enc_header (Some roots) 1) <= root_max_section -> roots <> [] ->
+Theorem root_reader_reads_back hok ro bs :
+  roots_ok (hdr_roots ro) -> blen (enc_header ro 1) <= root_max_section -> hdr_roots ro <> [] ->
   Forall root_block_ok bs -> Forall (hash_good hok) bs ->
-  root_read_all hok dec_header_canon (enc_payload roots bs) = Ok (roots, mkscan bs EEof).
-Proof. intros Hr. apply root_read_all_v1. apply hdr_good_canon. exact Hr. Qed.
+  root_read_all hok dec_header_canon (ld (enc_header ro 1) ++ enc_sections bs) = Ok (hdr_roots ro, mkscan bs EEof).
+Proof. intros Hr. apply root_read_all_v1. apply canon_hdr_ro. exact Hr. Qed.
 
-Theorem data_reader_reads_back o ct roots bs npad file :
-  car_file ct roots bs npad = Some file -> roots_ok roots -> limits_ok o roots bs npad ->
+Theorem data_reader_reads_back o ct ro bs npad file :
+  car_file ct ro bs npad = Some file -> roots_ok (hdr_roots ro) -> limits_ok o ro bs npad ->
   blen file < two63 -> (q_codec o = codec_sorted \/ q_codec o = codec_mh_sorted) ->
   match ct with
   | CV1 => True
@@ -162,15 +162,15 @@ Theorem data_reader_reads_back o ct roots bs npad file :
                            (emb <> None -> N.of_nat (length bs) < two31)
   end ->
   exists r, new_reader dec_header_canon (q_maxh o) file = Ok r /\
-            data_window r = payload_np roots bs npad /\
-            reader_roots dec_header_canon (q_maxh o) r = Ok roots.
+            data_window r = payload_np ro bs npad /\
+            reader_roots dec_header_canon (q_maxh o) r = Ok (hdr_roots ro).
 Proof.
-  intros Hf Hr Hl H63 Hc Hv. apply (data_reader_window dec_header_canon o ct roots bs npad file).
+  intros Hf Hr Hl H63 Hc Hv. apply (data_reader_window dec_header_canon o ct ro bs npad file).
   apply mk_file_ok; assumption.
 Qed.
 
-Theorem ro_blockstore_reads_back o ct roots bs npad file :
-  car_file ct roots bs npad = Some file -> roots_ok roots -> limits_ok o roots bs npad ->
+Theorem ro_blockstore_reads_back o ct ro bs npad file :
+  car_file ct ro bs npad = Some file -> roots_ok (hdr_roots ro) -> limits_ok o ro bs npad ->
   blen file < two63 -> (q_codec o = codec_sorted \/ q_codec o = codec_mh_sorted) ->
   match ct with
   | CV1 => True
@@ -179,18 +179,18 @@ Theorem ro_blockstore_reads_back o ct roots bs npad file :
   end ->
   (q_storeid o = true -> index_wid o ct None = true) -> consistent bs -> id_consistent bs ->
   exists s, ro_open dec_header_canon o file None = Ok s /\
-    ro_roots dec_header_canon s = OKeys roots /\
+    ro_roots dec_header_canon s = OKeys (hdr_roots ro) /\
     ro_keys dec_header_canon s = KKeys (ref_keys (q_whole o) bs) None /\
     forall c d p, In (c, d) bs -> cid_parse c = Some p -> ro_get s (key_of (q_whole o) c p) = OBytes d.
 Proof.
   intros Hf Hr Hl H63 Hc Hv Hw Hcons Hid.
-  apply (ro_reads_back dec_header_canon o ct roots bs npad file None None); try assumption.
+  apply (ro_reads_back dec_header_canon o ct ro bs npad file None None); try assumption.
   - apply mk_file_ok; assumption.
   - reflexivity.
 Qed.
 
-Theorem readable_storage_reads_back o ct roots bs npad file :
-  car_file ct roots bs npad = Some file -> roots_ok roots -> limits_ok o roots bs npad ->
+Theorem readable_storage_reads_back o ct ro bs npad file :
+  car_file ct ro bs npad = Some file -> roots_ok (hdr_roots ro) -> limits_ok o ro bs npad ->
   blen file < two63 -> (q_codec o = codec_sorted \/ q_codec o = codec_mh_sorted) ->
   match ct with
   | CV1 => True
@@ -199,11 +199,11 @@ Theorem readable_storage_reads_back o ct roots bs npad file :
   end ->
   (q_storeid o = true -> index_wid o ct None = true) -> consistent bs -> id_consistent bs ->
   exists s, sto_open dec_header_canon o file = Ok s /\
-    sto_roots s = OKeys roots /\
+    sto_roots s = OKeys (hdr_roots ro) /\
     forall c d p, In (c, d) bs -> cid_parse c = Some p -> sto_get s (key_of (q_whole o) c p) = OBytes d.
 Proof.
   intros Hf Hr Hl H63 Hc Hv Hw Hcons Hid.
-  apply (sto_reads_back dec_header_canon o ct roots bs npad file); try assumption.
+  apply (sto_reads_back dec_header_canon o ct ro bs npad file); try assumption.
   apply mk_file_ok; assumption.
 Qed.
 
@@ -217,10 +217,10 @@ Proof.
     vm_compute; intros E; inversion E; subst; intros H; try discriminate; reflexivity.
 Qed.
 
-Example ex_limits_ok : limits_ok (ex_opts true) ex_roots ex_bs 0.
+Example ex_limits_ok : limits_ok (ex_opts true) (Some ex_roots) ex_bs 0.
 Proof. pose proof (ex_arch_ok true) as [_ H2 _ H4 H5]. repeat split; assumption. Qed.
 
-Example ex_archive_ok : archive_ok all_hash_ok dec_header_canon default_ropts ex_roots ex_bs.
+Example ex_archive_ok : archive_ok_o all_hash_ok dec_header_canon default_ropts (Some ex_roots) ex_bs.
 Proof.
   pose proof (ex_arch_ok true) as [H1 H2 H3 H4 H5]. repeat split; try assumption.
   - cbn [default_ropts o_maxs]. rewrite Forall_forall in *. intros b Hb.
